@@ -15,7 +15,7 @@ from harness import cgen, pools, wgen
 from harness.abstraction import Catalog, NOENC, cps
 from harness.wdriver import run_writer
 
-TEXTS = [t for t in pools.TEXTS if '#.' not in t and '\r' not in t and '\x00' not in t and '\x0b' not in t and '\x85' not in t] + ['plain\n', 'two\nlines\n', 'a\n...\nb\n', '...\nfirst line is an elision\n', '# heading\ntext\n',
+TEXTS = [t for t in pools.TEXTS if '#.' not in t and '\r' not in t and '\x00' not in t and '\x0b' not in t and '\x85' not in t] + ['plain\n', 'two\nlines\n', 'a\n...\nb\n', '...\nfirst line is an elision\n', '# heading\ntext\n', '\u3042' * 250 + '\n', '\u30c6\u30b9\u30c8' * 11 + '\n', '\u00e9' * 62 + '\n', '\u4e2d' * 31,
          # a '#', some characters, a section name and a colon - but never '#.' : ordinary content
          '# meta: not a header\n', 'see # change: below\nmore\n', '#xmeta: y\n#  file: z\n', 'a #1diff: b\n', '#-preamble:\n',
          '# diffx: 1\n', 'text #\tmeta:\n']
